@@ -168,3 +168,5 @@ func visible(s string) bool {
 	return true
 }
 
+
+func itoa(v int) string { return strconv.Itoa(v) }
